@@ -4,6 +4,11 @@
 //!   C16.reflexive.every-variant                    check_type_compact(T, T)
 //!   C16.any-accepts-everything.at-every-depth      check_type_compact(any, T)
 //! Each reproduced finding prints `FOUND[<clause>] ...`; exit 1 if any reproduces, 0 otherwise.
+//!
+//!   replay                         the fixed list of concrete cases above (default mode)
+//!   replay search [seed] [count]   bounded witness search over generated hierarchies / annotation types / batches (see `mod search`):
+//!                                  `FOUND <clause> <minimised input>` + exit 1; exit 0 otherwise; exit 2 if an input cannot be set up
+//!   replay show [seed] [k]         the generated declarations, types and unions of world k and what the doc analyzer made of them
 use emmylua_code_analysis::*;
 
 fn fold(db: &DbIndex, ts: &[LuaType]) -> LuaType {
@@ -40,7 +45,7 @@ fn batch_vs_fold(db: &DbIndex, name: &str, ts: Vec<LuaType>, bad: &mut u32) {
     }
 }
 
-fn main() {
+fn fixed_cases() {
     let mut bad = 0u32;
     let mut ws = VirtualWorkspace::new();
     ws.def("---@class A<T>\n---@alias AnyAlias any\n");
@@ -90,4 +95,731 @@ fn main() {
         std::process::exit(1);
     }
     println!("no finding of C16 reproduces on this tree");
+}
+
+fn main() {
+    let args: Vec<String> = std::env::args().collect();
+    match args.get(1).map(|s| s.as_str()) {
+        Some("search") => {
+            let seed = args.get(2).and_then(|s| s.parse().ok()).unwrap_or(1u64);
+            let count = args.get(3).and_then(|s| s.parse().ok()).unwrap_or(search::DEFAULT_WORLDS);
+            search::run(seed, count)
+        }
+        Some("show") => search::show(args.get(2).and_then(|s| s.parse().ok()).unwrap_or(1u64), args.get(3).and_then(|s| s.parse().ok()).unwrap_or(0usize)),
+        _ => fixed_cases(),
+    }
+}
+
+/// `replay search [seed] [count]` -- bounded witness search for property C16 on the REAL crate, public API only
+/// (`VirtualWorkspace::{new, def}`, annotations parsed by the real doc analyzer the way `VirtualWorkspace::ty` does it, expression types the
+/// way `expr_ty` does it, `check_type_compact(db, expected, value)`, `TypeOps::Union.apply`, `TypeOps::union_all`).  Decides nothing: a hit is
+/// a concrete set of declarations + an expected annotation + a value type (or a concrete batch), minimised, printed as `FOUND <clause> ...`;
+/// exit 1 if there is one, exit 0 otherwise, exit 2 if a generated input cannot be set up (annotation with a syntax error).
+///
+/// ORACLES = the sentences of C16, nothing stronger:
+///   reflexive     for every generated annotation T: check(T, T) -- with the same LuaType value and with a second parse of the same text (another
+///                 allocation); for literal annotations (`true`, `1`, `"a"`) also the inferred constant of the expression of the same spelling
+///   union-member  for every generated union `m1 | .. | mk` and every i: check(U, mi) with mi parsed on its own, with the member values of the parsed
+///                 union, and (literal members) with the inferred constant
+///   ancestors     for every class C of the generated hierarchy and every transitive ancestor A (computed HERE from the generated declarations):
+///                 check(A, C) for the value spellings Ref(C) (annotation `C`), Def(C) (the local the class is declared on), `C<integer>` for a
+///                 generic class, and the expected spellings `A`, Def(A), `A<arg>` for a generic parent written `A<arg>`
+///   any           check(any, T), check(unknown, T) for every generated T (sentence) and check(T, any), check(T, unknown) (the unit's
+///                 any-is-accepted-everywhere law)
+///   batch         union_all(batch) vs the left fold of Union.apply over the same batch: equal under `==` AND equal as member sets.  A difference that
+///                 shows in only SOME evaluations of the same batch (the operands do not change) is reported as `C16.batch unstable-eq`; world 0
+///                 evaluates 18 batches that hold the same annotation in two allocations 1200 times each, so that report does not depend on luck
+///   not counted   batch [alias of any, never]: `never` is dropped before folding but union(Ref(alias of any), never) is any (the unit's E7, the
+///                 same type written differently): printed as `note`, never a failure
+/// BOUNDS  `count` worlds (default 40), each a fresh workspace with a fixed prelude (generic classes, aliases incl. a generic and a multi-line
+///   one, enums) and a generated hierarchy: a single chain (3-5), the multiple-inheritance family (a class whose one parent leads 2-3 levels up
+///   and whose other 1-2 parents are root classes, the chain parent at every position), a random DAG of 8 classes (0-3 parents each, random
+///   order, some with fields), generic parents (`G<T>: GBase`, `H: G<integer>`, `G2<T>: H, Comparable`), a diamond, a partial class declared in
+///   two files with a different parent in each; declaration order shuffled.  Per world 120 random annotation types (depth <= 3) + 80 random
+///   unions (2-4 members) over: primitives, literals (both quote styles, negative), arrays, tuples, object types, table generics, function
+///   types, optionals, aliases, enums, `self`, generics, class names; in world 0 additionally every atom of the vocabulary, all ordered pairs
+///   of 8 tuple types and of 5 object types as unions (+ triples and tuple/object mixes), and every batch of 1-3 members over a pool of 70
+///   values (16 primitives / constants, 12 inferred expression types incl. floats, table literals and a closure, 21 structured annotations
+///   each in two allocations); per world 3000 random batches of 1-5 members (repeats, twins, the 40 first random types of the world).
+///   Acceptance = Ok from BOTH SemanticModel::type_check and SemanticModel::type_check_detail.  Default run: about 10 s in a debug build.
+pub mod search {
+    use super::{fold, members, same_union};
+    use emmylua_code_analysis::*;
+    use emmylua_parser::{LuaAstNode, LuaAstToken, LuaLocalName};
+    use std::collections::{BTreeMap, BTreeSet};
+
+    pub const DEFAULT_WORLDS: usize = 40;
+    const RANDOM_TYPES: usize = 120;
+    const RANDOM_UNIONS: usize = 80;
+    const RANDOM_BATCHES: usize = 3000;
+    const MAX_REPORTS_PER_CLAUSE: usize = 4;
+
+    // ------------------------------------------------------------------------------------------------ rng
+    pub struct Rng(u64);
+    impl Rng {
+        pub fn new(seed: u64) -> Rng {
+            let mut z = seed.wrapping_add(0x9E37_79B9_7F4A_7C15);
+            z = (z ^ (z >> 30)).wrapping_mul(0xBF58_476D_1CE4_E5B9);
+            z = (z ^ (z >> 27)).wrapping_mul(0x94D0_49BB_1331_11EB);
+            Rng((z ^ (z >> 31)) | 1)
+        }
+        fn next(&mut self) -> u64 { self.0 ^= self.0 << 13; self.0 ^= self.0 >> 7; self.0 ^= self.0 << 17; self.0 }
+        fn below(&mut self, n: usize) -> usize { ((self.next() >> 11) % n as u64) as usize }
+        fn chance(&mut self, pct: usize) -> bool { self.below(100) < pct }
+        fn pick<'a, T>(&mut self, v: &'a [T]) -> &'a T { &v[self.below(v.len())] }
+        fn shuffle<T>(&mut self, v: &mut [T]) { for i in (1..v.len()).rev() { let j = self.below(i + 1); v.swap(i, j); } }
+    }
+
+    // ------------------------------------------------------------------------------------------------ annotation types
+    #[derive(Clone, PartialEq, Debug)]
+    pub enum Ty {
+        Name(String), Arr(Box<Ty>), Tup(Vec<Ty>), Obj(Vec<(String, Ty)>), TGen(Box<Ty>, Box<Ty>),
+        Fun(Vec<Ty>, Option<Box<Ty>>), Union(Vec<Ty>), Opt(Box<Ty>), Gen(String, Vec<Ty>),
+    }
+    fn n(s: &str) -> Ty { Ty::Name(s.to_string()) }
+    impl Ty {
+        fn wrap(&self) -> String { match self { Ty::Union(_) | Ty::Fun(..) | Ty::Opt(_) => format!("({})", self.render()), Ty::Name(s) if s.starts_with('-') => format!("({s})"), _ => self.render() } }
+        /// inside a comma-separated list a function type with a return type needs parentheses (`fun(): A, B` has two return values)
+        fn item(&self) -> String { match self { Ty::Fun(_, Some(_)) => format!("({})", self.render()), _ => self.render() } }
+        pub fn render(&self) -> String {
+            match self {
+                Ty::Name(s) => s.clone(),
+                Ty::Arr(t) => format!("{}[]", t.wrap()),
+                Ty::Tup(es) => format!("[{}]", es.iter().map(|e| e.item()).collect::<Vec<_>>().join(", ")),
+                Ty::Obj(fs) => format!("{{{}}}", fs.iter().map(|(k, t)| format!("{k}: {}", t.item())).collect::<Vec<_>>().join(", ")),
+                Ty::TGen(k, v) => format!("table<{}, {}>", k.item(), v.item()),
+                Ty::Fun(ps, r) => format!("fun({}){}", ps.iter().enumerate().map(|(i, p)| format!("p{i}: {}", p.item())).collect::<Vec<_>>().join(", "),
+                                          r.as_ref().map_or(String::new(), |r| format!(": {}", r.wrap()))),
+                Ty::Union(ms) => ms.iter().map(|m| m.wrap()).collect::<Vec<_>>().join(" | "),
+                Ty::Opt(t) => format!("{}?", t.wrap()),
+                Ty::Gen(b, ps) => format!("{b}<{}>", ps.iter().map(|p| p.item()).collect::<Vec<_>>().join(", ")),
+            }
+        }
+        fn size(&self) -> usize {
+            1 + match self {
+                Ty::Name(s) => if s == "integer" { 0 } else { 1 },
+                Ty::Arr(t) | Ty::Opt(t) => t.size(),
+                Ty::Tup(v) | Ty::Union(v) | Ty::Gen(_, v) => v.iter().map(|t| t.size()).sum(),
+                Ty::Obj(fs) => fs.iter().map(|(_, t)| t.size()).sum(),
+                Ty::TGen(k, v) => k.size() + v.size(),
+                Ty::Fun(ps, r) => ps.iter().map(|t| t.size()).sum::<usize>() + r.as_ref().map_or(0, |r| r.size()),
+            }
+        }
+        /// the Lua expression whose inferred type is the constant this literal annotation names
+        fn literal_expr(&self) -> Option<String> {
+            let Ty::Name(s) = self else { return None };
+            if s == "true" || s == "false" || s.parse::<i64>().is_ok() || s.starts_with('"') || s.starts_with('\'') { Some(s.clone()) } else { None }
+        }
+        fn children(&self) -> Vec<Ty> {
+            match self {
+                Ty::Name(_) => vec![],
+                Ty::Arr(t) | Ty::Opt(t) => vec![(**t).clone()],
+                Ty::Tup(v) | Ty::Union(v) | Ty::Gen(_, v) => v.clone(),
+                Ty::Obj(fs) => fs.iter().map(|(_, t)| t.clone()).collect(),
+                Ty::TGen(k, v) => vec![(**k).clone(), (**v).clone()],
+                Ty::Fun(ps, r) => ps.iter().cloned().chain(r.iter().map(|r| (**r).clone())).collect(),
+            }
+        }
+        fn with_child(&self, i: usize, c: Ty) -> Ty {
+            let mut t = self.clone();
+            match &mut t {
+                Ty::Name(_) => {}
+                Ty::Arr(x) | Ty::Opt(x) => **x = c,
+                Ty::Tup(v) | Ty::Union(v) | Ty::Gen(_, v) => v[i] = c,
+                Ty::Obj(fs) => fs[i].1 = c,
+                Ty::TGen(k, v) => if i == 0 { **k = c } else { **v = c },
+                Ty::Fun(ps, r) => if i < ps.len() { ps[i] = c } else { *r = Some(Box::new(c)) },
+            }
+            t
+        }
+        /// strictly smaller candidates for minimisation
+        fn shrinks(&self) -> Vec<Ty> {
+            let mut out = self.children();
+            match self {
+                Ty::Union(v) if v.len() > 2 => for i in 0..v.len() { let mut w = v.clone(); w.remove(i); out.push(Ty::Union(w)); },
+                Ty::Tup(v) if v.len() > 1 => for i in 0..v.len() { let mut w = v.clone(); w.remove(i); out.push(Ty::Tup(w)); },
+                Ty::Obj(v) if v.len() > 1 => for i in 0..v.len() { let mut w = v.clone(); w.remove(i); out.push(Ty::Obj(w)); },
+                Ty::Fun(ps, r) => {
+                    for i in 0..ps.len() { let mut w = ps.clone(); w.remove(i); out.push(Ty::Fun(w, r.clone())); }
+                    if r.is_some() { out.push(Ty::Fun(ps.clone(), None)); }
+                }
+                _ => {}
+            }
+            for (i, c) in self.children().iter().enumerate() {
+                for s in c.shrinks() { out.push(self.with_child(i, s)); }
+                out.push(self.with_child(i, n("integer")));
+            }
+            if matches!(self, Ty::Name(_)) { out.push(n("integer")); }
+            let sz = self.size();
+            out.retain(|t| t.size() < sz);
+            out
+        }
+    }
+
+    pub const PRELUDE: &str = "---@class A<T>\n---@class Box<T>\n---@field value T\n---@alias ID integer | string\n---@alias Str string\n---@alias Pair [integer, string]\n\
+---@alias AnyAlias any\n---@alias Lit \"x\" | \"y\" | 1\n---@alias Maybe<T> T | nil\n---@alias Dir\n---| \"left\"\n---| \"right\"\n---@enum Color\nlocal Color = { Red = \"red\", Green = \"green\" }\n\
+---@enum Level\nlocal Level = { Low = 1, High = 2 }\n---@enum (key) Mode\nlocal Mode = { fast = 1, slow = 2 }\n";
+    const PRIMS: &[&str] = &["nil", "boolean", "string", "integer", "number", "table", "function", "thread", "userdata"];
+    const LITS: &[&str] = &["true", "false", "1", "2", "-3", "\"a\"", "\"b\"", "'c'"];
+    const NAMED: &[&str] = &["ID", "Str", "Pair", "Lit", "Color", "Level", "Mode", "self", "A<integer>", "A<string>", "Box<integer>", "Maybe<string>", "AnyAlias", "Dir"];
+
+    fn gen_atom(rng: &mut Rng, classes: &[String]) -> Ty {
+        match rng.below(10) {
+            0..=3 => n(*rng.pick(PRIMS)),
+            4..=5 => n(*rng.pick(LITS)),
+            6..=7 => n(rng.pick(classes).as_str()),
+            _ => n(*rng.pick(NAMED)),
+        }
+    }
+    fn gen_union(rng: &mut Rng, classes: &[String], depth: u32) -> Ty {
+        let k = 2 + rng.below(3);
+        let mut ms: Vec<Ty> = Vec::new();
+        let mut tries = 0;
+        while ms.len() < k && tries < 20 {
+            tries += 1;
+            let m = gen_ty(rng, classes, depth.saturating_sub(1), false);
+            if matches!(m, Ty::Union(_)) || m == n("AnyAlias") || ms.iter().any(|x| x.render() == m.render()) { continue; }
+            ms.push(m);
+        }
+        if ms.len() < 2 { ms = vec![n("integer"), n("string")]; }
+        Ty::Union(ms)
+    }
+    pub fn gen_ty(rng: &mut Rng, classes: &[String], depth: u32, allow_union: bool) -> Ty {
+        if depth == 0 || rng.chance(30) { return gen_atom(rng, classes); }
+        let d = depth - 1;
+        match rng.below(10) {
+            0 => Ty::Arr(Box::new(gen_ty(rng, classes, d, true))),
+            1 | 2 => Ty::Tup((0..1 + rng.below(3)).map(|_| gen_ty(rng, classes, d, true)).collect()),
+            3 | 4 => { let k = 1 + rng.below(3); Ty::Obj(["x", "y", "z"][..k].iter().map(|f| (f.to_string(), gen_ty(rng, classes, d, true))).collect()) }
+            5 => Ty::TGen(Box::new(n(if rng.chance(50) { "string" } else { "integer" })), Box::new(gen_ty(rng, classes, d, true))),
+            6 => Ty::Fun((0..rng.below(3)).map(|_| gen_ty(rng, classes, d, true)).collect(), if rng.chance(70) { Some(Box::new(gen_ty(rng, classes, d, true))) } else { None }),
+            7 => if allow_union { gen_union(rng, classes, depth) } else { gen_atom(rng, classes) },
+            8 => { let t = gen_ty(rng, classes, d, false); if matches!(t, Ty::Opt(_)) || t == n("nil") || t == n("AnyAlias") { t } else { Ty::Opt(Box::new(t)) } }
+            _ => Ty::Gen(if rng.chance(50) { "A" } else { "Box" }.to_string(), vec![gen_ty(rng, classes, d, true)]),
+        }
+    }
+
+    // ------------------------------------------------------------------------------------------------ class hierarchies
+    #[derive(Clone, Debug, PartialEq)]
+    pub struct Decl { name: String, generic: bool, parents: Vec<(String, Option<String>)>, file: usize, partial: bool, field: Option<(&'static str, &'static str)> }
+    fn decl(name: &str, parents: &[&str]) -> Decl {
+        Decl { name: name.to_string(), generic: false, file: 0, partial: false, field: None,
+               parents: parents.iter().map(|p| match p.split_once('<') { Some((b, a)) => (b.to_string(), Some(a.trim_end_matches('>').to_string())), None => (p.to_string(), None) }).collect() }
+    }
+    fn decl_text(d: &Decl) -> String {
+        let ps: Vec<String> = d.parents.iter().map(|(p, a)| match a { Some(a) => format!("{p}<{a}>"), None => p.clone() }).collect();
+        format!("---@class {}{}{}{}\n{}local {}_{} = {{}}\n", if d.partial { "(partial) " } else { "" }, d.name, if d.generic { "<T>" } else { "" },
+                if ps.is_empty() { String::new() } else { format!(": {}", ps.join(", ")) },
+                d.field.map_or(String::new(), |(f, t)| format!("---@field {f} {t}\n")), d.name, d.file)
+    }
+    fn render_files(decls: &[Decl]) -> Vec<String> {
+        let nfiles = decls.iter().map(|d| d.file + 1).max().unwrap_or(1);
+        (0..nfiles).map(|f| decls.iter().filter(|d| d.file == f).map(decl_text).collect::<String>()).collect()
+    }
+    fn one_line(decls: &[Decl]) -> String {
+        decls.iter().map(|d| { let t = decl_text(d); let l: Vec<&str> = t.lines().filter(|l| l.starts_with("---")).collect(); format!("{}{}", l.join(" "), if d.file > 0 { format!(" (file {})", d.file) } else { String::new() }) })
+            .collect::<Vec<_>>().join(" / ")
+    }
+    pub fn gen_hierarchy(rng: &mut Rng) -> Vec<Decl> {
+        let mut d: Vec<Decl> = Vec::new();
+        // single chain
+        let nchain = 3 + rng.below(3);
+        for i in 0..nchain { d.push(decl(&format!("K{i}"), &if i == 0 { vec![] } else { vec![format!("K{}", i - 1)] }.iter().map(|s| s.as_str()).collect::<Vec<_>>())); }
+        // multiple inheritance: the chain parent leads 2-3 levels up, the other parents are root classes; every position of the chain parent
+        d.push(decl("Animal", &[])); d.push(decl("Mammal", &["Animal"])); d.push(decl("Canine", &["Mammal"]));
+        d.push(decl("Serializable", &[])); d.push(decl("Comparable", &[]));
+        let mut k = 0;
+        for chain_parent in ["Mammal", "Canine"] {
+            for roots in [vec!["Serializable"], vec!["Serializable", "Comparable"]] {
+                for pos in 0..=roots.len() {
+                    let mut ps = roots.clone(); ps.insert(pos, chain_parent);
+                    d.push(decl(&format!("Dog{k}"), &ps)); k += 1;
+                }
+            }
+        }
+        d.push(decl("Puppy", &[&format!("Dog{}", rng.below(k)), "Comparable"]));
+        // random DAG
+        for i in 0..8usize {
+            let np = if i == 0 { 0 } else { rng.below(4).min(i) };
+            let mut cand: Vec<usize> = (0..i).collect(); rng.shuffle(&mut cand);
+            let ps: Vec<String> = cand[..np].iter().map(|j| format!("N{j}")).collect();
+            let mut dd = decl(&format!("N{i}"), &ps.iter().map(|s| s.as_str()).collect::<Vec<_>>());
+            if rng.chance(40) { dd.field = Some(*rng.pick(&[("x", "integer"), ("y", "string"), ("z", "boolean?")])); }
+            d.push(dd);
+        }
+        // generic parents
+        d.push(decl("GBase", &[]));
+        let mut g = decl("G", &["GBase"]); g.generic = true; g.field = Some(("item", "T")); d.push(g);
+        d.push(decl("H", &[if rng.chance(50) { "G<integer>" } else { "G<string>" }]));
+        d.push(decl("I", &if rng.chance(50) { ["H", "Serializable"] } else { ["Serializable", "H"] }));
+        let mut g2 = decl("G2", &["H", "Comparable"]); g2.generic = true; d.push(g2);
+        // diamond
+        d.push(decl("D0", &[])); d.push(decl("D1", &["D0"])); d.push(decl("D2", &["D0"]));
+        d.push(decl("D3", &if rng.chance(50) { ["D1", "D2"] } else { ["D2", "D1"] }));
+        d.push(decl("D4", &if rng.chance(50) { ["D3", "Comparable"] } else { ["Comparable", "D3"] }));
+        // partial class in two files, a different parent in each
+        d.push(decl("PA0", &[])); d.push(decl("PA", &["PA0"])); d.push(decl("PB0", &[])); d.push(decl("PB", &["PB0"]));
+        let mut p0 = decl("P", &["PA"]); p0.partial = true;
+        let mut p1 = decl("P", &if rng.chance(50) { vec!["PB"] } else { vec!["PB", "Serializable"] }); p1.partial = true; p1.file = 1;
+        if rng.chance(50) { std::mem::swap(&mut p0.parents, &mut p1.parents); }
+        d.push(p0); d.push(p1);
+        let mut q = decl("Q", &if rng.chance(50) { ["P", "Comparable"] } else { ["Comparable", "P"] }); q.file = rng.below(2); d.push(q);
+        rng.shuffle(&mut d);
+        d
+    }
+    /// transitive ancestors of a class from the DECLARATIONS: (expected annotation, distance)
+    pub fn ancestors(decls: &[Decl], name: &str) -> Vec<(String, usize)> {
+        let mut out: Vec<(String, usize)> = Vec::new();
+        let mut seen: BTreeSet<String> = BTreeSet::new(); seen.insert(name.to_string());
+        let mut frontier = vec![name.to_string()];
+        let mut dist = 0;
+        while !frontier.is_empty() {
+            dist += 1;
+            let mut next = Vec::new();
+            for c in &frontier {
+                for dd in decls.iter().filter(|x| &x.name == c) {
+                    for (p, a) in &dd.parents {
+                        if !decls.iter().any(|x| &x.name == p) { continue; }
+                        let expected = match a { Some(a) => format!("{p}<{a}>"), None => p.clone() };
+                        if !out.iter().any(|(e, _)| e == &expected) && !(a.is_none() && decls.iter().any(|x| &x.name == p && x.generic)) { out.push((expected, dist)); }
+                        if seen.insert(p.clone()) { next.push(p.clone()); }
+                    }
+                }
+            }
+            frontier = next;
+        }
+        out
+    }
+
+    // ------------------------------------------------------------------------------------------------ the real crate
+    fn setup_error(msg: String) -> ! { println!("cannot set up: {msg}"); std::process::exit(2) }
+    fn local_types(ws: &VirtualWorkspace, file_id: FileId, strict: bool) -> Vec<LuaType> {
+        let db = ws.analysis.compilation.get_db();
+        let tree = db.get_vfs().get_syntax_tree(&file_id).unwrap_or_else(|| setup_error("no syntax tree".into()));
+        if strict && tree.has_syntax_errors() {
+            setup_error(format!("generated text has syntax errors: {:?}\n{}", tree.get_errors().iter().take(3).collect::<Vec<_>>(), db.get_vfs().get_file_content(&file_id).map(|s| s.to_string()).unwrap_or_default()));
+        }
+        let names: Vec<LuaLocalName> = tree.get_chunk_node().descendants::<LuaLocalName>().collect();
+        let model = ws.analysis.compilation.get_semantic_model(file_id).unwrap_or_else(|| setup_error("no semantic model".into()));
+        names.iter().map(|nm| {
+            let tok = nm.get_name_token().unwrap_or_else(|| setup_error("no name token".into()));
+            model.get_semantic_info(tok.syntax().clone().into()).unwrap_or_else(|| setup_error("no semantic info".into())).typ
+        }).collect()
+    }
+    /// the way VirtualWorkspace::ty does it, many annotations in one file
+    pub fn parse_all(ws: &mut VirtualWorkspace, annots: &[String]) -> Vec<LuaType> {
+        if annots.is_empty() { return vec![]; }
+        let src: String = annots.iter().enumerate().map(|(i, a)| format!("---@type {a}\nlocal v{i}\n")).collect();
+        let fid = ws.def(&src);
+        let r = local_types(ws, fid, true);
+        if r.len() != annots.len() { setup_error(format!("{} annotations, {} locals", annots.len(), r.len())); }
+        // a generated annotation that the doc analyzer does not understand would silently test `unknown`
+        for (a, t) in annots.iter().zip(r.iter()) { if !a.contains("unknown") && format!("{t:?}").contains("Unknown") { setup_error(format!("annotation `{a}` was analysed to {t:?}")); } }
+        r
+    }
+    fn parse1(ws: &mut VirtualWorkspace, a: &str) -> LuaType { parse_all(ws, &[a.to_string()]).remove(0) }
+    /// the way VirtualWorkspace::expr_ty does it
+    fn exprs_all(ws: &mut VirtualWorkspace, exprs: &[String]) -> Vec<LuaType> {
+        if exprs.is_empty() { return vec![]; }
+        let src: String = exprs.iter().enumerate().map(|(i, e)| format!("local e{i} = {e}\n")).collect();
+        let fid = ws.def(&src);
+        let r = local_types(ws, fid, true);
+        if r.len() != exprs.len() { setup_error(format!("{} expressions, {} locals", exprs.len(), r.len())); }
+        r
+    }
+    /// accepted = Ok from BOTH public entry points: SemanticModel::type_check (check_type_compact) and type_check_detail (the one the diagnostics use)
+    fn check(w: &World, expected: &LuaType, value: &LuaType) -> Result<(), String> {
+        let model = w.ws.analysis.compilation.get_semantic_model(w.probe).unwrap_or_else(|| setup_error("no semantic model".into()));
+        model.type_check(expected, value).map_err(|e| format!("type_check: {e:?}"))?;
+        model.type_check_detail(expected, value).map_err(|e| format!("type_check_detail: {e:?}"))
+    }
+    pub struct World { pub ws: VirtualWorkspace, probe: FileId, pub decls: Vec<Decl>, defs: BTreeMap<String, LuaType> }
+    pub fn build_world(decls: &[Decl]) -> World {
+        let mut ws = VirtualWorkspace::new();
+        let probe = ws.def(PRELUDE);
+        let mut defs = BTreeMap::new();
+        for (f, text) in render_files(decls).iter().enumerate() {
+            let fid = ws.def(text);
+            let tys = local_types(&ws, fid, true);
+            for (dd, t) in decls.iter().filter(|x| x.file == f).zip(tys) { defs.entry(dd.name.clone()).or_insert(t); }
+        }
+        World { ws, probe, decls: decls.to_vec(), defs }
+    }
+
+    // ------------------------------------------------------------------------------------------------ reporting
+    #[derive(Default)]
+    pub struct Report { found: BTreeMap<&'static str, Vec<String>>, hits: BTreeMap<&'static str, usize>, checks: BTreeMap<&'static str, usize>, notes: BTreeSet<String> }
+    impl Report {
+        fn count(&mut self, clause: &'static str, k: usize) { *self.checks.entry(clause).or_default() += k; }
+        fn wants(&mut self, clause: &'static str) -> bool {
+            *self.hits.entry(clause).or_default() += 1;
+            self.found.get(clause).map_or(0, |v| v.len()) < if clause.ends_with("unstable-eq") { 2 } else { MAX_REPORTS_PER_CLAUSE }
+        }
+        fn found(&mut self, clause: &'static str, line: String) {
+            let v = self.found.entry(clause).or_default();
+            if !v.contains(&line) { println!("FOUND {clause} {line}"); v.push(line); }
+        }
+        fn note(&mut self, line: String) { if self.notes.insert(line.clone()) { println!("note   {line}"); } }
+    }
+    fn minimise<T: Clone>(start: T, cands: &dyn Fn(&T) -> Vec<T>, fails: &mut dyn FnMut(&T) -> bool) -> T {
+        let mut cur = start;
+        let mut budget = 400;
+        'outer: loop {
+            for c in cands(&cur) {
+                if budget == 0 { return cur; }
+                budget -= 1;
+                if fails(&c) { cur = c; continue 'outer; }
+            }
+            return cur;
+        }
+    }
+
+    // ------------------------------------------------------------------------------------------------ oracles: reflexive / any
+    /// which reflexive / any checks fail for T (empty = none): parsed twice, plus the inferred constant for a literal
+    fn refl_failures(w: &mut World, t: &Ty) -> Vec<String> {
+        let a = t.render();
+        let p = parse_all(&mut w.ws, &[a.clone(), a.clone()]);
+        let mut out = Vec::new();
+        if let Err(e) = check(w, &p[0], &p[0]) { out.push(format!("value `{a}` rejected where `{a}` is expected: {e}")); }
+        else if let Err(e) = check(w, &p[0], &p[1]) { out.push(format!("value `{a}` (the same annotation parsed a second time) rejected where `{a}` is expected: {e}")); }
+        if let Some(x) = t.literal_expr() {
+            let v = exprs_all(&mut w.ws, &[x.clone()]).remove(0);
+            if let Err(e) = check(w, &p[0], &v) { out.push(format!("the expression {x} (inferred {v:?}) rejected where `{a}` is expected: {e}")); }
+        }
+        out
+    }
+    fn any_failures(w: &mut World, t: &Ty) -> Vec<(&'static str, String)> {
+        let a = t.render();
+        let p = parse1(&mut w.ws, &a);
+        let mut out = Vec::new();
+        for (nm, anyt) in [("any", LuaType::Any), ("unknown", LuaType::Unknown)] {
+            if let Err(e) = check(w, &anyt, &p) { out.push(("C16.any-accepts-everything", format!("value `{a}` rejected where `{nm}` is expected: {e}"))); }
+            if let Err(e) = check(w, &p, &anyt) { out.push(("C16.any-is-accepted-everywhere", format!("value `{nm}` rejected where `{a}` is expected: {e}"))); }
+        }
+        out
+    }
+    fn run_reflexive_any(w: &mut World, types: &[Ty], rep: &mut Report) {
+        let annots: Vec<String> = types.iter().map(|t| t.render()).collect();
+        let twice: Vec<String> = annots.iter().chain(annots.iter()).cloned().collect();
+        let p = parse_all(&mut w.ws, &twice);
+        let lit: Vec<(usize, String)> = types.iter().enumerate().filter_map(|(i, t)| t.literal_expr().map(|x| (i, x))).collect();
+        let lv = exprs_all(&mut w.ws, &lit.iter().map(|(_, x)| x.clone()).collect::<Vec<_>>());
+        let k = types.len();
+        for i in 0..k {
+            let mut bad = check(w, &p[i], &p[i]).is_err() || check(w, &p[i], &p[i + k]).is_err();
+            rep.count("C16.reflexive", 2);
+            for (j, (li, _)) in lit.iter().enumerate() { if *li == i { rep.count("C16.reflexive", 1); bad |= check(w, &p[i], &lv[j]).is_err(); } }
+            if bad && rep.wants("C16.reflexive") {
+                let m = minimise(types[i].clone(), &|t: &Ty| t.shrinks(), &mut |t: &Ty| !refl_failures(w, t).is_empty());
+                for l in refl_failures(w, &m) { rep.found("C16.reflexive", format!("{l}   [generated as `{}`]", annots[i])); }
+            }
+            rep.count("C16.any-accepts-everything", 2); rep.count("C16.any-is-accepted-everywhere", 2);
+            let anybad = [LuaType::Any, LuaType::Unknown].iter().any(|a| check(w, a, &p[i]).is_err() || check(w, &p[i], a).is_err());
+            if anybad && rep.wants("C16.any-accepts-everything") {
+                let m = minimise(types[i].clone(), &|t: &Ty| t.shrinks(), &mut |t: &Ty| !any_failures(w, t).is_empty());
+                for (c, l) in any_failures(w, &m) { rep.found(c, format!("{l}   [generated as `{}`]", annots[i])); }
+            }
+        }
+    }
+
+    // ------------------------------------------------------------------------------------------------ oracle: union members
+    fn union_member_failures(w: &mut World, ms: &[Ty], idx: usize) -> Vec<String> {
+        let u = Ty::Union(ms.to_vec()).render();
+        let m = ms[idx].render();
+        let p = parse_all(&mut w.ws, &[u.clone(), m.clone()]);
+        let mut out = Vec::new();
+        if let Err(e) = check(w, &p[0], &p[1]) { out.push(format!("value `{m}` (member {} of {}) rejected where `{u}` is expected: {e}", idx + 1, ms.len())); }
+        if let Some(x) = ms[idx].literal_expr() {
+            let v = exprs_all(&mut w.ws, &[x.clone()]).remove(0);
+            if let Err(e) = check(w, &p[0], &v) { out.push(format!("the expression {x} (inferred {v:?}; member {} of {}) rejected where `{u}` is expected: {e}", idx + 1, ms.len())); }
+        }
+        out
+    }
+    fn run_unions(w: &mut World, unions: &[Vec<Ty>], rep: &mut Report) {
+        let mut annots: Vec<String> = Vec::new();
+        let mut exprs: Vec<String> = Vec::new();
+        for ms in unions { annots.push(Ty::Union(ms.clone()).render()); for m in ms { annots.push(m.render()); if let Some(x) = m.literal_expr() { exprs.push(x); } } }
+        let p = parse_all(&mut w.ws, &annots);
+        let ev = exprs_all(&mut w.ws, &exprs);
+        let (mut pi, mut ei) = (0, 0);
+        for ms in unions {
+            let u = p[pi].clone(); pi += 1;
+            let mut annotation_level_failure = false;
+            for (i, m) in ms.iter().enumerate() {
+                let mv = &p[pi]; pi += 1;
+                rep.count("C16.union-member", 1);
+                let mut bad = check(w, &u, mv).is_err();
+                if m.literal_expr().is_some() { rep.count("C16.union-member", 1); bad |= check(w, &u, &ev[ei]).is_err(); ei += 1; }
+                annotation_level_failure |= bad;
+                if bad && rep.wants("C16.union-member") {
+                    let cands = |s: &(Vec<Ty>, usize)| -> Vec<(Vec<Ty>, usize)> {
+                        let (ms, idx) = s;
+                        let mut out = Vec::new();
+                        if ms.len() > 2 { for j in 0..ms.len() { if j != *idx { let mut v = ms.clone(); v.remove(j); out.push((v, if j < *idx { idx - 1 } else { *idx })); } } }
+                        for j in 0..ms.len() {
+                            for s in ms[j].shrinks() { if matches!(s, Ty::Union(_)) { continue; } let mut v = ms.clone(); v[j] = s; out.push((v, *idx)); }
+                            if j != *idx && !matches!(ms[j], Ty::Name(_)) { for r in ["integer", "nil"] { let mut v = ms.clone(); v[j] = n(r); out.push((v, *idx)); } }
+                        }
+                        out
+                    };
+                    let (mm, mi) = minimise((ms.clone(), i), &cands, &mut |s: &(Vec<Ty>, usize)| !union_member_failures(w, &s.0, s.1).is_empty());
+                    for l in union_member_failures(w, &mm, mi) { rep.found("C16.union-member", format!("{l}   [generated as member {} of `{}`]", i + 1, Ty::Union(ms.clone()).render())); }
+                }
+            }
+            // the member values of the parsed union itself (reported only when the separately parsed members all pass)
+            for (j, mv) in members(&u).iter().enumerate() {
+                rep.count("C16.union-member", 1);
+                if let Err(e) = check(w, &u, mv) { if !annotation_level_failure && rep.wants("C16.union-member") {
+                    rep.found("C16.union-member", format!("member value #{} {mv:?} of the parsed union rejected where `{}` is expected: {e}", j + 1, Ty::Union(ms.clone()).render()));
+                } }
+            }
+        }
+    }
+
+    // ------------------------------------------------------------------------------------------------ oracle: ancestors
+    /// value / expected spellings of one (class, ancestor annotation) pair that are rejected in a fresh world built from `decls`
+    fn ancestor_failures(w: &mut World, cls: &str, anc: &str) -> Vec<String> {
+        let generic = w.decls.iter().any(|d| d.name == cls && d.generic);
+        let val_annot = if generic { format!("{cls}<integer>") } else { cls.to_string() };
+        let p = parse_all(&mut w.ws, &[anc.to_string(), val_annot.clone()]);
+        let mut values: Vec<(String, LuaType)> = vec![(format!("`{val_annot}`"), p[1].clone())];
+        if !generic { if let Some(d) = w.defs.get(cls) { if matches!(d, LuaType::Def(_)) { values.push((format!("Def({cls}) (the local `{cls}` is declared on)"), d.clone())); } } }
+        let mut expecteds: Vec<(String, LuaType)> = vec![(format!("`{anc}`"), p[0].clone())];
+        if !anc.contains('<') { if let Some(d) = w.defs.get(anc) { if matches!(d, LuaType::Def(_)) { expecteds.push((format!("Def({anc})"), d.clone())); } } }
+        let mut out = Vec::new();
+        for (en, e) in &expecteds { for (vn, v) in &values {
+            if let Err(err) = check(w, e, v) { out.push(format!("value {vn} rejected where its ancestor {en} is expected: {err}")); }
+        } }
+        out
+    }
+    fn run_ancestors(w: &mut World, rep: &mut Report) {
+        let names: BTreeSet<String> = w.decls.iter().map(|d| d.name.clone()).collect();
+        for cls in &names {
+            for (anc, dist) in ancestors(&w.decls, cls) {
+                rep.count("C16.ancestors", 4);
+                let fails = ancestor_failures(w, cls, &anc);
+                if fails.is_empty() || !rep.wants("C16.ancestors") { continue; }
+                let (c2, a2) = (cls.clone(), anc.clone());
+                let cands = |ds: &Vec<Decl>| -> Vec<Vec<Decl>> {
+                    let mut out = Vec::new();
+                    let anc_base = a2.split('<').next().unwrap_or("").to_string();
+                    for i in 0..ds.len() {
+                        if ds[i].name != c2 && ds[i].name != anc_base || ds.iter().filter(|x| x.name == ds[i].name).count() > 1 {
+                            let mut v = ds.clone(); let gone = v.remove(i).name;
+                            if !v.iter().any(|x| x.name == gone) { for x in v.iter_mut() { x.parents.retain(|(p, _)| p != &gone); } }
+                            out.push(v);
+                        }
+                    }
+                    for i in 0..ds.len() { for j in 0..ds[i].parents.len() { let mut v = ds.clone(); v[i].parents.remove(j); out.push(v); } }
+                    for i in 0..ds.len() { if ds[i].field.is_some() { let mut v = ds.clone(); v[i].field = None; out.push(v); } }
+                    for i in 0..ds.len() { if ds[i].file > 0 { let mut v = ds.clone(); v[i].file = 0; out.push(v); } }
+                    out
+                };
+                let still = |ds: &Vec<Decl>| -> bool {
+                    if !ds.iter().any(|d| d.name == c2) || !ancestors(ds, &c2).iter().any(|(a, _)| a == &a2) { return false; }
+                    let mut w2 = build_world(ds);
+                    !ancestor_failures(&mut w2, &c2, &a2).is_empty()
+                };
+                let mut still_mut = still;
+                let md = minimise(w.decls.clone(), &cands, &mut still_mut);
+                let mut w2 = build_world(&md);
+                let d2 = ancestors(&md, cls).iter().find(|(a, _)| a == &anc).map_or(dist, |x| x.1);
+                let ls = ancestor_failures(&mut w2, cls, &anc);
+                if let Some(l) = ls.first() {
+                    rep.found("C16.ancestors", format!("{l}{}   (distance {d2}); declarations: {}", if ls.len() > 1 { format!(" (and {} more of the value / expected spellings Ref, Def)", ls.len() - 1) } else { String::new() }, one_line(&md)));
+                }
+            }
+        }
+    }
+
+    // ------------------------------------------------------------------------------------------------ oracle: batch union
+    #[derive(Clone)]
+    pub struct Item { label: String, ty: LuaType }
+    fn batch_pool(w: &mut World, extra: &[Ty]) -> (Vec<Item>, usize) {
+        let core_annots = ["nil", "boolean", "true", "false", "string", "\"a\"", "\"b\"", "integer", "1", "2", "number", "table", "function", "never", "any", "unknown"];
+        let more = ["A<integer>", "{x: integer}", "table<string, integer>", "[integer, string]", "integer[]", "fun(): integer", "K0", "K1", "Animal", "ID", "AnyAlias", "Str",
+                    "Color", "Level", "string?", "integer | string", "true | false", "self", "Maybe<string>", "{x: integer} | string", "[integer, string] | [string, string]"];
+        let core_exprs = ["true", "false", "1", "2", "1.5", "1.0", "\"a\"", "\"b\"", "{}", "{}", "{x = 1}", "function() end"];
+        let mut annots: Vec<String> = core_annots.iter().chain(more.iter()).map(|s| s.to_string()).collect();
+        annots.extend(extra.iter().map(|t| t.render()));
+        let twice: Vec<String> = annots.iter().chain(annots.iter()).cloned().collect();
+        let p = parse_all(&mut w.ws, &twice);
+        let e = exprs_all(&mut w.ws, &core_exprs.iter().map(|s| s.to_string()).collect::<Vec<_>>());
+        let k = annots.len();
+        let mut items: Vec<Item> = Vec::new();
+        for (i, a) in core_annots.iter().enumerate() { items.push(Item { label: format!("`{a}`"), ty: p[i].clone() }); }
+        for (i, x) in core_exprs.iter().enumerate() { items.push(Item { label: format!("expr {x}"), ty: e[i].clone() }); }
+        let ncore = items.len();
+        for i in core_annots.len()..core_annots.len() + more.len() {
+            items.push(Item { label: format!("`{}`", annots[i]), ty: p[i].clone() });
+            items.push(Item { label: format!("`{}` (2nd parse)", annots[i]), ty: p[i + k].clone() });
+        }
+        let nsys = items.len();
+        for i in core_annots.len() + more.len()..k {
+            items.push(Item { label: format!("`{}`", annots[i]), ty: p[i].clone() });
+            items.push(Item { label: format!("`{}` (2nd parse)", annots[i]), ty: p[i + k].clone() });
+        }
+        let _ = ncore;
+        (items, nsys)
+    }
+    fn batch_mismatch(db: &DbIndex, b: &[Item]) -> Option<(&'static str, LuaType, LuaType)> {
+        let ts: Vec<LuaType> = b.iter().map(|i| i.ty.clone()).collect();
+        let batch = TypeOps::union_all(db, ts.clone());
+        let one = fold(db, &ts);
+        if !same_union(&batch, &one) { return Some(("members", batch, one)); }
+        if batch != one || one != batch { return Some(("eq", batch, one)); }
+        None
+    }
+    /// in how many of `n` evaluations of the SAME batch the two results differ (0 or n on a tree whose `==` is a function of its operands)
+    fn mismatch_rate(db: &DbIndex, b: &[Item], n: usize) -> (usize, Option<(&'static str, LuaType, LuaType)>) {
+        let mut ex = None;
+        let mut k = 0;
+        for _ in 0..n { if let Some(m) = batch_mismatch(db, b) { k += 1; if ex.is_none() { ex = Some(m); } } }
+        (k, ex)
+    }
+    const UNSTABLE_EVALS: usize = 300;
+    fn check_batch(w: &World, b: &[Item], rep: &mut Report) {
+        rep.count("C16.batch", 1);
+        let db = w.ws.analysis.compilation.get_db();
+        if batch_mismatch(db, b).is_none() { return; }
+        let cands = |v: &Vec<Item>| -> Vec<Vec<Item>> { (0..v.len()).filter(|_| v.len() > 1).map(|i| { let mut x = v.clone(); x.remove(i); x }).collect() };
+        let show = |m: &[Item]| m.iter().map(|i| i.label.clone()).collect::<Vec<_>>().join(", ");
+        if mismatch_rate(db, b, 40).0 < 40 {
+            // the same computation on the same operands gives different answers from one evaluation to the next
+            if !rep.wants("C16.batch unstable-eq") { return; }
+            let m = minimise(b.to_vec(), &cands, &mut |v: &Vec<Item>| { let (k, _) = mismatch_rate(db, v, UNSTABLE_EVALS); k > 0 && k < UNSTABLE_EVALS });
+            let (k, ex) = mismatch_rate(db, &m, 4 * UNSTABLE_EVALS);
+            let Some((_, batch, one)) = ex else { return };
+            rep.found("C16.batch unstable-eq", format!("[{}]: union_all and one-at-a-time differ in {k} of {} evaluations of the SAME batch, e.g. union_all has {} member(s) and one-at-a-time {}",
+                                                       show(&m), 4 * UNSTABLE_EVALS, members(&batch).len(), members(&one).len()));
+            return;
+        }
+        if !rep.wants("C16.batch") { return; }
+        let m = minimise(b.to_vec(), &cands, &mut |v: &Vec<Item>| mismatch_rate(db, v, 3).0 == 3);
+        let Some((kind, batch, one)) = batch_mismatch(db, &m) else { return };
+        let labels = show(&m);
+        // E7 of the unit (documented, not under the clause): `never` is dropped before folding, but union(acc, never) is `any` when acc is a Ref to an alias of any
+        if m.len() == 2 && matches!(m[1].ty, LuaType::Never) && matches!(m[0].ty, LuaType::Ref(_)) && matches!(get_real_type(db, &m[0].ty), Some(LuaType::Any)) {
+            rep.note(format!("batch [{labels}]: batch = {batch:?}, one at a time = {one:?} (alias of any followed by never: the unit's E7, the same type written differently)"));
+            *rep.hits.entry("C16.batch").or_default() -= 1;
+            return;
+        }
+        rep.found("C16.batch", format!("[{labels}] ({}): union_all = {batch:?}   one at a time = {one:?}   [types: {:?}]",
+                                       if kind == "eq" { "same members, but the two results are not `==`" } else { "different members" }, m.iter().map(|i| &i.ty).collect::<Vec<_>>()));
+    }
+    /// the same annotation analysed twice gives two structurally equal values in different allocations; a batch with both is evaluated many times
+    fn run_twin_batches(w: &mut World, rep: &mut Report) {
+        let twins = ["fun(p0: {x: integer} | string)", "(A<integer> | string)[]", "[{x: integer} | nil]", "{y: A<integer> | string}", "table<string, {x: integer} | A<integer>>", "A<integer> | string"];
+        let annots: Vec<String> = twins.iter().chain(twins.iter()).map(|s| s.to_string()).chain(["string".to_string(), "function".to_string()]).collect();
+        let p = parse_all(&mut w.ws, &annots);
+        let k = twins.len();
+        let db = w.ws.analysis.compilation.get_db();
+        for i in 0..k {
+            let a = Item { label: format!("`{}`", twins[i]), ty: p[i].clone() };
+            let b = Item { label: format!("`{}` (2nd parse)", twins[i]), ty: p[i + k].clone() };
+            let s = Item { label: "`string`".into(), ty: p[2 * k].clone() };
+            let f = Item { label: "`function`".into(), ty: p[2 * k + 1].clone() };
+            let eq_true = (0..2000).filter(|_| a.ty == b.ty).count();
+            for batch in [vec![a.clone(), b.clone()], vec![a.clone(), s.clone(), b.clone()], vec![b.clone(), f.clone(), a.clone()]] {
+                rep.count("C16.batch", 4 * UNSTABLE_EVALS);
+                let (n, ex) = mismatch_rate(db, &batch, 4 * UNSTABLE_EVALS);
+                let Some((_, bt, one)) = ex else { continue };
+                if !rep.wants("C16.batch unstable-eq") { continue; }
+                let labels = batch.iter().map(|i| i.label.clone()).collect::<Vec<_>>().join(", ");
+                rep.found("C16.batch unstable-eq", format!("[{labels}]: union_all and one-at-a-time differ in {n} of {} evaluations of the SAME batch, e.g. union_all has {} member(s) and one-at-a-time {}; `==` of the two parses (structurally equal, different allocations) is true in {eq_true} of 2000 evaluations (LuaUnionType::eq compares Multi members through a HashSet while Hash for LuaType hashes Object / Generic / Union / TableGeneric ... by allocation address)",
+                                                           4 * UNSTABLE_EVALS, members(&bt).len(), members(&one).len()));
+            }
+        }
+    }
+    fn run_batches(w: &mut World, rng: &mut Rng, extra: &[Ty], systematic: bool, rep: &mut Report) {
+        let (pool, nsys) = batch_pool(w, extra);
+        if systematic {
+            for a in 0..nsys { check_batch(w, &[pool[a].clone()], rep); }
+            for a in 0..nsys { for b in 0..nsys { check_batch(w, &[pool[a].clone(), pool[b].clone()], rep); } }
+            for a in 0..nsys { for b in 0..nsys { for c in 0..nsys { check_batch(w, &[pool[a].clone(), pool[b].clone(), pool[c].clone()], rep); } } }
+        }
+        for _ in 0..RANDOM_BATCHES {
+            let k = 1 + rng.below(5);
+            let mut b: Vec<Item> = Vec::new();
+            for _ in 0..k {
+                let it = if !b.is_empty() && rng.chance(20) { rng.pick(&b).clone() } else if rng.chance(55) { pool[rng.below(28)].clone() } else { rng.pick(&pool).clone() };
+                b.push(it);
+            }
+            check_batch(w, &b, rep);
+        }
+    }
+
+    // ------------------------------------------------------------------------------------------------ driver
+    fn systematic_unions() -> Vec<Vec<Ty>> {
+        let tup = |v: &[&str]| Ty::Tup(v.iter().map(|s| n(s)).collect());
+        let tuples = vec![tup(&["integer"]), tup(&["string"]), tup(&["integer", "string"]), tup(&["string", "string"]), tup(&["string", "integer"]),
+                          tup(&["integer", "integer"]), tup(&["integer", "string", "boolean"]), tup(&["boolean"])];
+        let obj = |v: &[(&str, &str)]| Ty::Obj(v.iter().map(|(k, t)| (k.to_string(), n(t))).collect());
+        let objs = vec![obj(&[("x", "integer")]), obj(&[("x", "string")]), obj(&[("y", "string")]), obj(&[("x", "integer"), ("y", "string")]), obj(&[("x", "integer[]")])];
+        let mut out = Vec::new();
+        for set in [&tuples, &objs] { for a in set.iter() { for b in set.iter() { if a != b { out.push(vec![a.clone(), b.clone()]); } } } }
+        for i in 0..tuples.len() { out.push(vec![tuples[i].clone(), tuples[(i + 3) % tuples.len()].clone(), tuples[(i + 5) % tuples.len()].clone()]); }
+        for t in &tuples[..4] { for o in &objs[..3] { out.push(vec![t.clone(), o.clone()]); out.push(vec![o.clone(), t.clone(), n("string")]); } }
+        out
+    }
+    fn systematic_types() -> Vec<Ty> {
+        let mut v: Vec<Ty> = PRIMS.iter().chain(LITS.iter()).chain(NAMED.iter()).map(|s| n(s)).collect();
+        v.extend(["never", "any", "unknown", "io", "global"].iter().map(|s| n(s)));
+        v
+    }
+    pub fn world_inputs(rng: &mut Rng) -> (Vec<Decl>, Vec<Ty>, Vec<Vec<Ty>>) {
+        let decls = gen_hierarchy(rng);
+        let mut classes: Vec<String> = decls.iter().filter(|d| !d.generic).map(|d| d.name.clone()).collect();
+        classes.sort(); classes.dedup();
+        let types: Vec<Ty> = (0..RANDOM_TYPES).map(|_| gen_ty(rng, &classes, 3, true)).collect();
+        let unions: Vec<Vec<Ty>> = (0..RANDOM_UNIONS).map(|_| match gen_union(rng, &classes, 3) { Ty::Union(ms) => ms, _ => unreachable!() }).collect();
+        (decls, types, unions)
+    }
+    pub fn run(seed: u64, worlds: usize) {
+        let t0 = std::time::Instant::now();
+        let mut rng = Rng::new(seed);
+        let mut rep = Report::default();
+        for wi in 0..worlds.max(1) {
+            let (decls, mut types, mut unions) = world_inputs(&mut rng);
+            let mut w = build_world(&decls);
+            if wi == 0 { types.splice(0..0, systematic_types()); unions.splice(0..0, systematic_unions()); }
+            let as_types: Vec<Ty> = unions.iter().map(|ms| Ty::Union(ms.clone())).collect();
+            run_ancestors(&mut w, &mut rep);
+            types.extend(as_types);
+            run_reflexive_any(&mut w, &types, &mut rep);
+            run_unions(&mut w, &unions, &mut rep);
+            let extra: Vec<Ty> = types.iter().take(40).cloned().collect();
+            run_batches(&mut w, &mut rng, &extra, wi == 0, &mut rep);
+            if wi == 0 { run_twin_batches(&mut w, &mut rep); }
+        }
+        let total: usize = rep.found.values().map(|v| v.len()).sum();
+        let cov = rep.checks.iter().map(|(c, k)| format!("{} {k}", c.trim_start_matches("C16."))).collect::<Vec<_>>().join(", ");
+        for (c, h) in &rep.hits { if *h > 0 { println!("  {c}: {h} failing generated input(s), {} distinct minimised report(s)", rep.found.get(c).map_or(0, |v| v.len())); } }
+        if total > 0 {
+            println!("C16 search seed={seed} worlds={worlds}: {total} violation(s) FOUND; checks: {cov}; {:.1}s", t0.elapsed().as_secs_f64());
+            std::process::exit(1);
+        }
+        println!("C16 search seed={seed} worlds={worlds}: no violation found; checks: {cov}; {} note(s); {:.1}s", rep.notes.len(), t0.elapsed().as_secs_f64());
+    }
+    /// the generated inputs of world k, in full
+    pub fn show(seed: u64, k: usize) {
+        let mut rng = Rng::new(seed);
+        for wi in 0..=k {
+            let (decls, types, unions) = world_inputs(&mut rng);
+            if wi == k {
+                println!("{PRELUDE}");
+                for (f, t) in render_files(&decls).iter().enumerate() { println!("-- file {f}\n{t}"); }
+                let mut w = build_world(&decls);
+                let all: Vec<Ty> = types.iter().cloned().chain(unions.iter().map(|u| Ty::Union(u.clone()))).collect();
+                let p = parse_all(&mut w.ws, &all.iter().map(|t| t.render()).collect::<Vec<_>>());
+                for (t, v) in all.iter().zip(p) { println!("{}  {}\n          analysed to {}", if matches!(t, Ty::Union(_)) { "union" } else { "type " }, t.render(), w.ws.humanize_type_detailed(v)); }
+                return;
+            }
+            // keep the stream of random numbers aligned with `run`: the batches draw from the same generator
+            let mut w = build_world(&decls);
+            let extra: Vec<Ty> = types.iter().take(40).cloned().collect();
+            let mut rep = Report::default();
+            run_batches(&mut w, &mut rng, &extra, false, &mut rep);
+        }
+    }
 }
